@@ -126,7 +126,7 @@ CHECKS.update({
     "C03": ("exploration",
             "exhaustive enumeration of three expression-string corpora x load/evaluation contexts on the real evaluator under a runtime monitor (CPython audit hook, value-kind walker, before/after deep equality)",
             "2.9k node-instance strings (every expression node class / operator / call shape / literal kind x 15 nesting wrappers), 25k attribute-closure strings (15 receivers x every "
-            "dir() name of 16 builtin types x 6 shapes, enumerated at run time) and 44k payload strings (classic escapes and all ordered pair splices) are loaded and evaluated "
+            "dir() name of 16 builtin types x 6 shapes, enumerated at run time) and 44k payload strings (classic escapes and all ordered pair splices), plus list results holding a generator as a later element, are loaded and evaluated "
             "directly, in the 6 positions of a .rules file and as view filter / variable (over a merchant with four payments out of date order); a residue family evaluates 13 name-binding expressions followed by 10 readers on another transaction (directly and as two rules of one engine). No audit event may be raised by evaluation (only `compile` of the text when parsing), every "
             "produced value / tag / field / transformed description must be plain data, transaction / rows / variables / ast.dump must be unchanged, and undocumented constructs must "
             "be rejected or fail as ExpressionError.",
@@ -149,7 +149,7 @@ CHECKS.update({
 CHECKS.update({
     "C04": ("exploration",
             "exhaustive enumeration of a typed expression grammar up to an operator bound x transactions; differential execution of the real evaluator against an independent reference interpreter (translation to Python) plus equivalence-law instances",
-            "All 6.8k (quick, <=2 operators) / ~100k (thorough, <=3) well-typed expressions over Bool/Num/Str/Rows layers are evaluated on 16 boundary transactions (incl. twins sharing a description and literal regex metacharacters) with supplemental "
+            "All 6.8k (quick, <=2 operators) / ~100k (thorough, <=3) well-typed expressions over Bool/Num/Str/Rows layers are evaluated on 16 boundary transactions (incl. twins sharing a description, literal regex metacharacters and an amount half a cent off a literal) with supplemental "
             "rows by the real evaluator and by mc/ref/expr.py, and again without variables / sources; wherever the reference is defined the values must be identical. On every ordered pair of a 30-element Boolean basis x "
             "every transaction: double negation, both De Morgan laws, commutation of error-free and/or operands, letter-case invariance (names, literals, description), and "
             "agreement of evaluate_transaction with matches_transaction and a one-rule engine; all chains a o1 b o2 c over 6 operands x 36 operator pairs equal their conjunction; "
@@ -186,7 +186,7 @@ CHECKS.update({
     "C11": ("exploration",
             "deviation-bounded exhaustive enumeration of budget configurations (all budgets within <=B single-setting deviations of a default), each run through the real CLI in fresh forked processes and compared with a pipeline assembled from library components and abstract statement rows",
             "The default budget and every budget at <=2 (quick, ~950 budgets) / <=3 (thorough) deviations over 44 single-setting deviations (per-source layout, delimiter, header, "
-            "decimal separator, sign mode, name, missing / directory / invalid-UTF-8 file; rules as .rules / legacy CSV / none / dangling; rule mode; views none / broken; currency "
+            "decimal separator, sign mode, name, a leftover type: key next to the format string, missing / directory / invalid-UTF-8 file; rules as .rules / legacy CSV / none / dangling; rule mode; views none / broken; currency "
             "format; 1-3 sources incl. a twin with an identical format string and different overrides; supplemental source present / absent / with a Latin-1 byte; rule-mode spellings; source order) runs `tally up --format json -v`, "
             "`--format summary` and the HTML report. Merchants (category, subcategory, tags, totals, counts, raw descriptions), summary figures, view membership and HTML data must "
             "equal what normalize_merchant / analyze_transactions / classify_by_sections produce from the abstract rows; unreadable sources must be named.",
@@ -198,7 +198,7 @@ CHECKS.update({
     "C16": ("exploration",
             "exhaustive enumeration of budgets over rule-file feature subsets x rule mode x transform x supplemental; three-way differential execution of `tally up`, `tally explain` and `tally discover` through the real CLI in forked processes, with twin budgets as oracle for description probes",
             "Every budget over feature subsets (<=1 feature quick, all 64 subsets thorough) of {tag-only rule first, top-level variable, let+field, not contains(), weekday, \"X\" in "
-            "description} x 2 rule modes x transform on/off x supplemental source on/off, plus legacy-CSV budgets: for every merchant `up` reports, `explain <merchant>` must give the same "
+            "description} x 2 rule modes x transform on/off x supplemental source on/off, plus legacy-CSV budgets and three budgets whose statement file is named by two data sources: for every merchant `up` reports, `explain <merchant>` must give the same "
             "category / subcategory / tags / pattern; for 15 (description, amount) probes (incl. sign-sensitive and blank-run-sensitive rules) `explain <description> --amount` must equal what `up` assigns to that row in a twin budget "
             "containing it; `discover --format json` must list exactly the raw descriptions `up` leaves Unknown with equal counts and totals.",
             "probes are independent of date / source / custom fields; each comparison is between real CLI runs in fresh processes",
